@@ -323,8 +323,9 @@ def load_modules(flavour, repo):
     return out
 
 
-def run_calls(calls, mods):
-    """Execute the calls; returns list of ('ok', result, [in-place arrays]) or ('error', text)."""
+def run_calls(calls, mods, budget=None):
+    """Execute the calls; returns list of ('ok', result, [in-place arrays]) or ('error', text).
+    budget: optional line-event budget per call (deterministic non-termination verdict for interpreted code)."""
     res = []
     for key, fn, args, outs in calls:
         mod = mods.get(key)
@@ -337,7 +338,15 @@ def run_calls(calls, mods):
             continue
         a = [x.copy() if isinstance(x, np.ndarray) else x for x in args]
         try:
-            r = f(*a)
+            if budget:
+                from .harness import traced_call, Nontermination
+                try:
+                    r = traced_call(lambda aa: f(*aa), a, budget)
+                except Nontermination:
+                    res.append(("nontermination", "more than %d line events" % budget))
+                    continue
+            else:
+                r = f(*a)
             res.append(("ok", r, [a[i] for i in outs], [a[i] for i, x in enumerate(a) if isinstance(x, np.ndarray) and i not in outs]))
         except Exception as e:  # noqa
             res.append(("error", "%s: %s" % (type(e).__name__, e)))
@@ -347,6 +356,7 @@ def run_calls(calls, mods):
 def main(argv):
     if len(argv) >= 4 and argv[1] == "--run":
         flavour = argv[5] if len(argv) > 5 and argv[4] == "--flavour" else "ref"
+        budget = int(argv[7]) if len(argv) > 7 and argv[6] == "--budget" else None
         from . import bootstrap
         bootstrap.prepare()
         import warnings
@@ -358,7 +368,7 @@ def main(argv):
         exported = {k: sorted(n for n in dir(m) if not n.startswith("_") and callable(getattr(m, n)))
                     for k, m in mods.items() if not isinstance(m, Exception)}
         with open(argv[3], "wb") as f:
-            pickle.dump({"results": run_calls(calls, mods), "files": files, "exported": exported}, f)
+            pickle.dump({"results": run_calls(calls, mods, budget), "files": files, "exported": exported}, f)
         return 0
     print(__doc__)
     return 0
